@@ -34,12 +34,16 @@ pub struct ExecResult {
 pub fn exec_episode(ep: &Episode, cpu_budget: u64) -> ExecResult {
     let path = format!("{}/abysim.ep.{}.{}.json", tmp_base(), std::process::id(), crate::rng::mix(&[ep.seed, ep.steps.len() as u64]));
     std::fs::write(&path, serde_json::to_string(ep).unwrap()).expect("write episode");
-    let r = exec_file(&path, cpu_budget, ep.steps.len() as u32);
+    let r = exec_file_p(&path, cpu_budget, ep.steps.len() as u32, &ep.profile);
     let _ = std::fs::remove_file(&path);
     r
 }
 
 pub fn exec_file(path: &str, cpu_budget: u64, nsteps: u32) -> ExecResult {
+    exec_file_p(path, cpu_budget, nsteps, "")
+}
+
+pub fn exec_file_p(path: &str, cpu_budget: u64, nsteps: u32, profile: &str) -> ExecResult {
     let exe = std::env::current_exe().unwrap();
     let out = Command::new(exe).arg("exec").arg(path).arg(cpu_budget.to_string()).stdin(Stdio::null()).stderr(Stdio::null()).output().expect("spawn exec child");
     let text = String::from_utf8_lossy(&out.stdout).to_string();
@@ -72,7 +76,7 @@ pub fn exec_file(path: &str, cpu_budget: u64, nsteps: u32) -> ExecResult {
     let sig = out.status.signal().unwrap_or(0);
     let (class, what) = death_class(sig, out.status.code());
     ExecResult {
-        violation: Some(Violation { class: class.to_string(), signature: format!("{class}:{what}"), step: nsteps, detail: format!("the process executing the episode died: {what}") }),
+        violation: Some(Violation { class: class.to_string(), signature: format!("{class}:{what}@{profile}"), step: nsteps, detail: format!("the process executing the episode died: {what}") }),
         inconclusive: None,
         trace_hash: 0,
         result_hash: 0,
@@ -337,6 +341,7 @@ pub fn run_check(cfg: &CheckCfg) -> CheckResult {
     let mut eof = vec![false; w];
     let mut stopped_early = false;
     let mut respawns = 0;
+    let mut harness_errors = 0u64;
     loop {
         match rx.recv_timeout(Duration::from_millis(100)) {
             Ok((id, line)) => {
@@ -389,6 +394,10 @@ pub fn run_check(cfg: &CheckCfg) -> CheckResult {
                             }
                         }
                         Some("done") => procs[id].done = true,
+                        Some("harness-error") => {
+                            eprintln!("harness: {}", v["what"].as_str().unwrap_or("?"));
+                            harness_errors += 1;
+                        }
                         _ => {}
                     }
                 }
@@ -421,10 +430,14 @@ pub fn run_check(cfg: &CheckCfg) -> CheckResult {
                 }
                 let index = in_flight - 1;
                 let (class, what) = death_class(st.signal().unwrap_or(0), st.code());
+                let profile = {
+                    let fam = profiles::episodes(&cfg.prop, cfg.tier, cfg.seed, index);
+                    fam.get(sub as usize).or(fam.first()).map(|e| e.profile.clone()).unwrap_or_default()
+                };
                 found.push(Found {
                     index,
                     sub,
-                    violation: Violation { class: class.to_string(), signature: format!("{class}:{what}"), step: u32::MAX, detail: format!("worker process died while executing run {index} (episode {sub} of its family): {what}") },
+                    violation: Violation { class: class.to_string(), signature: format!("{class}:{what}@{profile}"), step: u32::MAX, detail: format!("worker process died while executing run {index} (episode {sub} of its family): {what}") },
                     episode: None,
                 });
                 *tot.entry("evaluations".into()).or_insert(0) += 1;
@@ -575,7 +588,7 @@ pub fn run_check(cfg: &CheckCfg) -> CheckResult {
             },
             "violation_signatures": by_sig.iter().map(|(s, v)| (s.clone(), v.len())).collect::<BTreeMap<_, _>>(),
             "known_findings_matched": known_lines.len(),
-            "exhaustive": false,
+            "exhaustive": cfg.prop == "C13" && !stopped_early && evaluations >= profiles::c13_cases().len() as u64,
         },
         "assumptions": [
             "the simulated kernel implements POSIX semantics for the eight calls used (checked by the twin run against the real kernel, abysim selftest twin)",
@@ -601,6 +614,9 @@ pub fn run_check(cfg: &CheckCfg) -> CheckResult {
     }
     if evaluations == 0 {
         eprintln!("harness: no evaluation completed");
+        exit = 2;
+    }
+    if harness_errors > 0 && exit == 0 {
         exit = 2;
     }
     let _ = sample_of;
@@ -629,7 +645,7 @@ pub fn replay_main(path: &str) -> i32 {
             return 2;
         }
     };
-    let r = exec_file(path, 120, rf.episode.steps.len() as u32);
+    let r = exec_file_p(path, 120, rf.episode.steps.len() as u32, &rf.episode.profile);
     match &r.violation {
         Some(v) if v.signature == rf.violation.signature => {
             let known = load_findings().iter().any(|k| k.property == rf.property && k.sig == v.signature);
